@@ -220,7 +220,7 @@ int main(int argc, char **argv) {
             std::string bytes = cp::print(d, tape, po, info);
             if (!info.ok) { count_excluded("unprintable"); RC_DISCARD("unprintable"); }
             // occasionally blow the document up beyond the 4096-byte read buffer / the 133120-unit scan buffer with a big text field
-            int big = *rc::gen::weightedElement<int>({{63, 0}, {20, 1}, {8, 2}, {2, 3}, {4, 4}, {3, 5}});
+            int big = *rc::gen::weightedElement<int>({{59, 0}, {20, 1}, {8, 2}, {2, 3}, {8, 4}, {3, 5}});
             long forced_target = -1;
             if (big == 5) {
                 // a multi-line string or text field whose closing delimiter is the LAST character of the buffer fill at which the scan buffer
@@ -239,7 +239,10 @@ int main(int argc, char **argv) {
                 // more than a scan buffer (131200 units) of SMALL tokens: the buffer then fills up to its end between compactions, and the
                 // last, short read of the file meets it at an arbitrary fill level (terminator folding shifts the level against the
                 // 4096-byte reads).  Comment lines cost nothing to store; a few items follow so that a lost tail is seen.
-                int nlines = *g::range(1700, 2600), len = *g::range(30, 90);
+                // (the total is kept between one and one-and-a-half scan buffers in 2 of 3 cases, so that the final, short read arrives
+                // while the buffer is nearly full; which fill level it meets then depends on the terminators and on the tail)
+                int len = *g::range(30, 90);
+                int nlines = *g::chance(67) ? (131300 + *g::range(0, 65000)) / (len + 4) : *g::range(1700, 2600);
                 std::string tf = "\ndata_many\n";
                 for (int i = 0; i < nlines; i++) { tf += "#"; tf += std::string((size_t) (len + (i * 7) % 5), (char) ('a' + i % 26)); tf += "\n"; }
                 int ntail = *g::range(1, 40);
@@ -267,6 +270,7 @@ int main(int argc, char **argv) {
             c.seti("utf16", *g::chance(12) ? 1 : 0);
             if (*g::chance(30)) { std::string m; int n = *g::range(1, 6); for (int i = 0; i < n; i++) m += std::to_string(*rc::gen::element(1, 2, 3, 7, 100, 1000, 4095, 4096, 4097, 10000)) + " "; c.set("chunks", m); }
             // target: a byte of the document to move next to a fill boundary: prefer line terminators inside values and multi-byte characters
+            if (big == 4 && *g::chance(60)) c.seti("variant", V_CRLF);   // terminator folding shortens every fill by its number of pairs
             if (big == 5) { c.seti("variant", *g::chance(70) ? V_LF : V_CR); c.seti("utf16", 0); }   // one byte per unit, one unit per terminator: the fill level is the byte offset
             bool two = big >= 1 && big <= 3 && !c.geti("utf16") && *g::chance(40);      // two-boundary mode: one terminator ends a fill, another opens a later fill
             if (two) c.seti("variant", V_MIXED);
